@@ -132,6 +132,14 @@ func (o *c09) Step(r *StepRec) []Violation {
 				if _, killedLater := killedAt[cb.Ctx]; killedLater {
 					want = stCompleted // and later in the same block the module stopped all its feeds
 				}
+				if cb.React == "start" && p1.State == stPaused {
+					// resumed at the expiry, due at once, and its consumer could not pay: the module was told so
+					for _, cb2 := range r.CBs {
+						if cb2.Kind == "state" && cb2.Ctx == cb.Ctx {
+							want = stPaused
+						}
+					}
+				}
 				if p1.State != want {
 					o.fail("c09:react_lost:"+cb.React, "the module's %s of context %s inside its response callback succeeded, but the context is %s after %s", cb.React, short(cb.Ctx), stateName(p1.State), a.Kind)
 				}
